@@ -122,6 +122,17 @@ func c10Oracle(p *Plan) *Verdict {
 	reqMax := repsOf("req", reqData, reqCompressed, rc.Client.Msgs[0].Pad, rc.Client.Codec, rc.Client.Compression, full["path"] == "reencode" || full["path"] == "prep", n.Codec)
 	var respMax int64
 	respData := rc.Backend.Resp.Msgs[0].Data
+	if b != nil && rc.Backend.Resp.EndCompressed && st.respComp != "" {
+		// a compressed end-of-stream frame: what counts is what it inflates to (at least its trailing metadata)
+		n := 0
+		for _, kv := range rc.Backend.Resp.Trailers {
+			n += len(kv[0]) + len(kv[1]) + 4
+		}
+		names = append(names, fmt.Sprintf("resp.end-frame-inflated>=%d", n))
+		if int64(n) > respMax {
+			respMax = int64(n)
+		}
+	}
 	if b != nil && st.respEndLen > 0 {
 		// the backend's own end-of-stream / trailer frame is buffered too
 		names = append(names, fmt.Sprintf("resp.end-frame=%d", st.respEndLen))
@@ -304,6 +315,25 @@ func init() {
 					}
 					rc.Backend.Resp.Msgs = []MsgSpec{small2}
 				}
+			}
+			if c.Prob(0.1) && enveloped(rc.Client.Form) {
+				// the end of the stream as the oversized message: a compressed end-of-stream / trailer frame, small on the wire,
+				// whose trailing metadata inflates to far more than L (backends whose outcome travels in the body)
+				svc.Protocols = []string{Pick(c, ProtoConnect, ProtoGRPCWeb)}
+				if md := getSchema("sim").method(rc.Client.Method); md == nil || (!md.IsStreamingClient() && !md.IsStreamingServer()) {
+					svc.Protocols = []string{ProtoGRPCWeb} // a unary Connect backend has no end-of-stream frame: its trailers are headers
+				}
+				rc.Client.Msgs = []MsgSpec{small}
+				rc.Backend.Resp.Msgs = []MsgSpec{small}
+				rc.Backend.Resp.Compression = Pick(c, "gzip", "deflate")
+				rc.Backend.Resp.EndCompressed = true
+				rc.Backend.Resp.Trailers = [][2]string{{"X-Filler", strings.Repeat("x", Pick(c, 2*L, 2*(8*L+c10Slack)))}}
+				rc.Backend.Resp.TrailerStyle = "prefix"
+				rc.Backend.Resp.StrayHTTPTrailer, rc.Backend.Resp.EarlyTrailers = false, false
+				if !contains(rc.Client.Accept, rc.Backend.Resp.Compression) {
+					rc.Client.Accept = append(rc.Client.Accept, rc.Backend.Resp.Compression)
+				}
+				dir = "response"
 			}
 			if rc.Client.Form == FormConnectGet {
 				svc.MaxGetURL = 1 << 30
